@@ -126,3 +126,112 @@ EXPLANATION = "under construction"
 ASSUMPTIONS = []
 TRUSTED = []
 BOUNDED = [{"name": "auto_cli-generated-signatures", "script": "bounded/b12_autocli.py"}]
+
+
+# ------------------------------------------------------------------------------------- _add_signature_parameter (decision part)
+EMPTY = Rec("inspect._empty")
+SUPPRESS = "==SUPPRESS=="
+KINDS = Rec("kinds", attrs={k: k for k in ("POSITIONAL_ONLY", "POSITIONAL_OR_KEYWORD", "VAR_POSITIONAL", "KEYWORD_ONLY", "VAR_KEYWORD")})
+
+
+def sp_setup(ctx):
+    from contracts.parse_models import noop_cm
+    from pyvc.engine import ClassRef
+    kind = ["POSITIONAL_OR_KEYWORD", "KEYWORD_ONLY", "VAR_POSITIONAL", "VAR_KEYWORD"][ctx.choose(4, "param-kind")]
+    dflt = ["no-default", "a-value", "None"][ctx.choose(3, "param-default")]
+    ann = ["int", "Optional[int]", "Complex", "untyped"][ctx.choose(4, "annotation")]
+    name = ["x", "_private"][ctx.choose(2, "name")]
+    as_positional = ctx.choose(2, "as_positional") == 1
+    fail_untyped = ctx.choose(2, "fail_untyped") == 1
+    nested = [None, "grp"][ctx.choose(2, "nested_key")]
+    linked = ctx.choose(2, "is-a-link-target") == 1
+    default_val = z3.Int("signature-default")
+    annotation = {"int": ClassRef("int"), "Optional[int]": Rec("Optional[int]", attrs={"optional": True}), "Complex": Rec("Dict[str, int]", attrs={"optional": False}), "untyped": EMPTY}[ann]
+    param = Rec("ParamData", attrs={"name": name, "kind": kind, "annotation": annotation, "default": {"no-default": EMPTY, "a-value": default_val, "None": None}[dflt],
+                                    "doc": "help text", "origin": None, "component": Rec("fn"), "parent": None})
+    added = []
+    action = Rec("Action", attrs={})
+    container = Rec("ArgumentGroup", methods={"add_argument": lambda c, s_, a, k: (added.append((a, dict(k))), action)[1]})
+    optional_of = lambda x: Rec("Optional[...]", attrs={"of": x, "optional": True})  # noqa: E731
+    calls = {
+        "is_optional": lambda c, a, k: isinstance(a[0], Rec) and a[0].attrs.get("optional", False),
+        "get_typehint_origin": lambda c, a, k: None, "get_parameter_origins": lambda c, a, k: "src", "is_factory_class": lambda c, a, k: False,
+        "is_dataclass_like": lambda c, a, k: False, "is_subclass": lambda c, a, k: False, "register_pydantic_type": lambda c, a, k: None,
+        "ActionTypeHint.is_subclass_typehint": lambda c, a, k: False, "ActionTypeHint.is_return_subclass_typehint": lambda c, a, k: False,
+        "ActionTypeHint.prepare_add_argument": lambda c, a, k: k["args"], "type": lambda c, a, k: ClassRef("int"),
+    }
+    consts = {"inspect_empty": EMPTY, "SUPPRESS": SUPPRESS, "not_required_types": (), "kinds": KINDS, "Any": Rec("Any", attrs={"optional": True}),
+              "Optional": Rec("typing.Optional", methods={"__getitem__": lambda c, s_, a, k: optional_of(a[0])}),
+              "Union": Rec("typing.Union", methods={"__getitem__": lambda c, s_, a, k: Rec("Union[...]", attrs={"args": a[0], "optional": True})}), "ArgumentParser": ClassRef("ArgumentParser")}
+    self = Rec("SignatureArguments", attrs={"logger": Rec("Logger", methods={"debug": lambda c, s_, a, k: None})})
+    added_args = []
+    env = {"self": self, "container": container, "nested_key": nested, "param": param, "added_args": added_args, "skip": None, "fail_untyped": fail_untyped, "as_positional": as_positional,
+           "sub_configs": False, "instantiate": True, "linked_targets": {name} if linked else None, "default": EMPTY, "kwargs": {}}
+    return Setup(env=env, calls=calls, consts=consts, cms={"ActionTypeHint.allow_default_instance_context": noop_cm("allow_default_instance")},
+                 data=dict(kind=kind, dflt=dflt, ann=ann, name=name, as_positional=as_positional, fail_untyped=fail_untyped, nested=nested, linked=linked, default_val=default_val,
+                           annotation=annotation, added=added, added_args=added_args))
+
+
+def sp_expect(d):
+    """What the statement says about one parameter -> None (skipped) or dict(required, positional, default-kind)."""
+    if d["kind"] in ("VAR_POSITIONAL", "VAR_KEYWORD"):
+        return None
+    has_default = d["dflt"] != "no-default"
+    optional_ann = d["ann"] == "Optional[int]"
+    required = not has_default and not optional_ann
+    if d["ann"] == "untyped" and not d["fail_untyped"]:
+        required = False
+    if required and d["linked"]:
+        required = False  # a link target is not required from the user
+    if not required and d["name"].startswith("_"):
+        return None
+    return {"required": required}
+
+
+def sp_post(ctx, st, result):
+    d = st.data
+    exp = sp_expect(d)
+    tag = f"[{d['kind']},{d['dflt']},{d['ann']},{d['name']}{',positional' if d['as_positional'] else ''}{',lenient' if not d['fail_untyped'] else ''}{',nested' if d['nested'] else ''}{',linked' if d['linked'] else ''}]"
+    added = d["added"]
+    if exp is None:
+        ctx.oblige("post", "*args/**kwargs-and-private-parameters-with-a-default-are-not-offered" + tag, not added and not d["added_args"])
+        return
+    if d["ann"] == "untyped" and d["fail_untyped"] and d["dflt"] == "no-default" and not d["linked"]:
+        ctx.oblige("post", "an-untyped-mandatory-parameter-cannot-be-added-silently(fail_untyped)" + tag, False)
+        return
+    ctx.oblige("post", "the-parameter-is-offered-exactly-once" + tag, len(added) == 1)
+    if len(added) != 1:
+        return
+    args, kw = added[0]
+    dest = (d["nested"] + "." if d["nested"] else "") + d["name"]
+    if exp["required"]:
+        if d["as_positional"]:
+            ctx.oblige("post", "a-parameter-without-default-is-required:as-a-positional-when-asked" + tag, args == (dest,) and "default" not in kw)
+        else:
+            ctx.oblige("post", "a-parameter-without-default-is-required:as-a-required-option" + tag, args == ("--" + dest,) and kw.get("required") is True and "default" not in kw)
+    else:
+        ctx.oblige("post", "an-optional-parameter-is-an-option(never a positional, never required)" + tag, args == ("--" + dest,) and "required" not in kw)
+        if d["dflt"] == "a-value":
+            ctx.oblige("post", "the-signature-default-is-kept" + tag, kw.get("default") is d["default_val"])
+        else:
+            ctx.oblige("post", "no-default(or None)=>defaults-to-None" + tag, "default" in kw and kw["default"] is None)
+    ctx.oblige("post", "the-key-is-nested_key.name-and-it-is-recorded-as-added" + tag, d["added_args"] == [dest])
+    if d["ann"] in ("int", "Optional[int]", "Complex"):
+        t = kw.get("type")
+        if d["dflt"] == "None" and d["ann"] in ("int", "Complex"):
+            ctx.oblige("post", "default-None-for-a-type-that-does-not-admit-None-widens-the-type-to-Optional" + tag, isinstance(t, Rec) and t.attrs.get("of") is d["annotation"])
+        elif not (d["linked"] and d["dflt"] == "no-default" and d["ann"] != "Optional[int]"):
+            ctx.oblige("post", "the-declared-type-is-the-annotation" + tag, t is d["annotation"] or (isinstance(t, ClassRef_) and isinstance(d["annotation"], ClassRef_) and t.name == d["annotation"].name))
+
+
+from pyvc.engine import ClassRef as ClassRef_  # noqa: E402
+
+
+def sp_raises(ctx, st, exc):
+    d = st.data
+    ok = exc.cls == "ValueError" and d["ann"] == "untyped" and d["fail_untyped"] and d["dflt"] == "no-default" and not d["linked"] and d["kind"] not in ("VAR_POSITIONAL", "VAR_KEYWORD")
+    ctx.oblige("raises", f"only-an-untyped-mandatory-parameter-is-refused(got {exc.cls}@{exc.origin})", ok)
+
+
+UNITS.append(Unit("C12", "jsonargparse._signatures:SignatureArguments._add_signature_parameter", sp_setup, sp_post, sp_raises, max_paths=60000, expect_cover=("return", "raise:ValueError"),
+                  trusted=["is_optional / is_dataclass_like / ActionTypeHint.is_subclass_typehint / prepare_add_argument: assumed typing-introspection contracts (A4)", "container.add_argument declares the argument as given"]))
